@@ -307,6 +307,7 @@ class Emitter:
         s.inprogress = set()
         s.fwd = []
         s.helpers = set()
+        s.rename = dict(RENAME)   # per translation (obligations are translated concurrently: no module-level state)
 
     # ---- type -> C
     def resolve(s, t):
@@ -518,7 +519,7 @@ class Emitter:
 
     def gname(s, n): return 'g_' + cid(n) if not re.fullmatch(r'[A-Za-z_][A-Za-z0-9_]*', n) else n
     def fname(s, n):
-        return RENAME.get(n, cid(n))
+        return s.rename.get(n, cid(n))
 
     def gep_expr(s, bt, ops, rty, fn):
         base = s.vexpr(ops[0], fn)
@@ -1412,7 +1413,7 @@ def translate(text, roots, stubs=(), rename=None):
     M = parse_module(text)
     E = Emitter(M)
     E.used_globals = set(); E.used_funcs = set()
-    if rename: RENAME.update(rename)
+    if rename: E.rename.update(rename)
     roots = list(roots) + list(M.ctors)
     done = {}; work = list(roots); order = []
     fbodies = {}
